@@ -144,6 +144,14 @@ theorem C14_new_task_is_newest (p : Pool) (m : Nat) (isMap : Bool) :
     simp [createTask, emitRef, modReq]
   exact ⟨h, by rw [h]; simp⟩
 
+/-- `stop(n)` with `n ≥ num_running` is `stop_all()`: it names every running task, newest first -/
+theorem C14_large_n_is_stop_all (p : Pool) (n : Int) (hs : p.simple.isSome = true) (hn : p.running.length ≤ n.toNat) :
+    (p.doStop n).2 = .ids p.running.reverse := by
+  rw [(C14_stop_shape p n hs).1]
+  congr 1
+  apply List.take_of_length_le
+  simpa using hn
+
 /-! Non-vacuity with a gap: four started tasks, task 2 cancelled individually, `stop 2` names 3 and 1 (not 2), 0 is left. -/
 def C14_demo_gap : History :=
   [.mkpool none (some Pool.gatedSpec) none, .on 0 [] (.start 4), .run 0 [], .run 0 [], .run 0 [], .run 0 [], .run 0 [],
